@@ -130,7 +130,7 @@ func runOne(r *sim.Run) {
 	computes := 0
 	var hist []string
 	for step := 0; step < nSteps && !r.Violated(); step++ {
-		op := t.Pick([]int{6, 3, 3, 2, 2, 1, 1, 1, 10}, "op")
+		op := t.Pick([]int{6, 3, 3, 2, 2, 1, 1, 1, 10, 3, 2}, "op")
 		ks := keysSorted()
 		switch op {
 		case 0: // add
@@ -179,6 +179,38 @@ func runOne(r *sim.Run) {
 						r.Count("probe:key_reinserted", 1)
 						hist = append(hist, fmt.Sprintf("reins %x..(%d)", k[28:], len(set[k])))
 						break
+					}
+				}
+			}
+		case 9: // the value grows or shrinks by zero octets (state values are full of them: counters, balances, empty lists)
+			if len(ks) > 0 {
+				k := ks[t.Choose(len(ks), "pad")]
+				v := append([]byte(nil), set[k]...)
+				if len(v) > 0 && t.Bool("trim") {
+					v = v[:len(v)-1-t.Choose(min(len(v), 3), "trim_n")]
+				} else {
+					v = append(v, make([]byte, 1+t.Choose(3, "pad_n"))...)
+				}
+				if t.Prob(1, 4, "zero_tail") {
+					for i := len(v) / 2; i < len(v); i++ {
+						v[i] = 0
+					}
+				}
+				set[k] = v
+				r.Count("probe:value_padded_or_trimmed_with_zero_octets", 1)
+				hist = append(hist, fmt.Sprintf("pad %x..(%d)", k[28:], len(v)))
+			}
+		case 10: // one octet of the value changes (any position, also to zero)
+			if len(ks) > 0 {
+				k := ks[t.Choose(len(ks), "edit")]
+				if v := append([]byte(nil), set[k]...); len(v) > 0 {
+					p := t.Choose(len(v), "edit_pos")
+					nv := []byte{0, 1, v[p] ^ 0x80, v[p] + 1}[t.Choose(4, "edit_val")]
+					if nv != v[p] {
+						v[p] = nv
+						set[k] = v
+						r.Count("probe:value_one_octet_changed", 1)
+						hist = append(hist, fmt.Sprintf("edit %x..[%d]", k[28:], p))
 					}
 				}
 			}
